@@ -1009,3 +1009,85 @@ def d_compose(P, E):
                     if val != 1:
                         r.violate(("operators::all::All::execute", "take(%s) instead of take(1)" % val), "all() must stop at the first counter-example", body=b, line=c.line)
     return r
+
+
+# --------------------------------------------------------------------------- HOOK-STORE: the hook setters keep what they are given
+HOOK_SETTERS = [
+    # (setter, canonical field, what hangs on it)
+    ("internals::stream_controller::StreamController::set_on_finalize", "on_finalize",
+     "finalize() then has nothing to run: a scheduler created for the subscription is never aborted (its worker thread stays)"),
+    ("observer::Observer::set_on_unsubscribe", "fn_on_unsubscribe",
+     "unsubscribing the observer no longer reaches the StreamController's finalize / the Subject's de-registration: upstream is never torn down"),
+    ("subjects::subject::Subject::set_on_subscribe", "on_subscribe",
+     "ref_count()/replay() never hear of their first subscriber and never connect"),
+    ("subjects::subject::Subject::set_on_unsubscribe", "on_unsubscribe",
+     "ref_count()/replay() never hear that their last subscriber left and never disconnect"),
+]
+
+
+def hook_store(P, E, prefixes=None):
+    """Each hook setter stores, on every path, Some(wrapper of the callback it was given) into its hook cell."""
+    r = RuleResult("HOOK-STORE", "set_on_finalize / set_on_unsubscribe / Subject::set_on_(un)subscribe store the callback they are given")
+    n = 0
+    for (nid, field, why) in HOOK_SETTERS:
+        if prefixes and not nid.startswith(prefixes):
+            continue
+        bs = [b for b in P.bodies.values() if b.nid == nid]
+        if len(bs) != 1:
+            r.error("HOOK-STORE: anchor missing: %s" % nid)
+            continue
+        b = bs[0]
+        n += 1
+
+        def hits(prov):
+            for t in prov:
+                for g in P.global_cell(b, t, through_helpers="add"):
+                    if field in g[3]:
+                        return True
+            return False
+
+        def from_callback(op, depth=0):
+            """the stored value wraps the setter's callback parameter"""
+            if depth > 6 or not isinstance(op, dict) or op.get("k") not in ("copy", "move"):
+                return False
+            for t in b.operand_prov(op):
+                if t[0] == "param" and t[1] == 2:
+                    return True
+                if t[0] == "agg":
+                    rv = b.blocks[t[1][0]]["stmts"][t[1][1]]["rv"]
+                    if any(from_callback(o, depth + 1) for o in rv.get("ops", [])):
+                        return True
+                    if rv.get("ak") == "closure":
+                        continue
+                if t[0] == "ret":
+                    k = b.call_at(t[1])
+                    if k is not None and any(from_callback(a, depth + 1) for a in k.args):
+                        return True
+            return False
+        stores = []       # (bb, is Some(callback))
+        for i in sorted(b.reach):
+            for s_ in b.blocks[i]["stmts"]:
+                if s_["k"] == "assign" and len(s_["lhs"]) > 1 and "*" in s_["lhs"] and hits(b.place_prov(s_["lhs"])):
+                    rv = s_["rv"]
+                    some = False
+                    cands = [rv] if rv["k"] == "agg" else []
+                    if rv["k"] == "use" and rv["op"]["k"] in ("copy", "move"):
+                        for t in b.operand_prov(rv["op"]):
+                            if t[0] == "agg":
+                                cands.append(b.blocks[t[1][0]]["stmts"][t[1][1]]["rv"])
+                    for a in cands:
+                        if a.get("variant") == "Some" and any(from_callback(o) for o in a.get("ops", [])):
+                            some = True
+                    stores.append((i, some))
+        for c in b.calls:
+            if c.path in ("std::option::Option::replace", "std::option::Option::insert", "std::option::Option::get_or_insert") and len(c.args) > 1 \
+                    and hits(b.operand_prov(c.args[0])):
+                stores.append((c.bb, from_callback(c.args[1])))
+        good = [bb for (bb, ok) in stores if ok]
+        r.instance((nid, "stores its callback"), True, "stores into %s at %s" % (field, stores))
+        if not good or Effects.path_avoiding(b, b.returns, good) is not None:
+            r.violate((nid, "callback not stored"),
+                      "%s does not store Some(<its callback>) into `%s` on every path: %s" % (nid.split("::")[-1], field, why), body=b)
+    if n == 0:
+        r.error("HOOK-STORE: no setter in scope")
+    return r
